@@ -237,7 +237,8 @@ impl Packing for Packer {
 
     fn unpack(&self,fimg: &FileImage) -> Result<UnpackedData,DYNERR> {
         Self::verify(fimg)?;
-        let typ = String::from_utf8(fimg.fs_type.clone())?;
+        // the high bits of the extension are attributes (read-only, system, archived), not part of the type
+        let typ: String = fimg.fs_type.iter().map(|b| (b & 0x7f) as char).collect();
         match typ.as_str() {
             "TXT" | "ASM" | "SUB" => {
                 let maybe = self.unpack_txt(fimg)?;
